@@ -13,14 +13,20 @@
   decodes to a box (a box whose data does not decode behaves like a plain tx,
   exactly as `getSubTxs` returns an empty list on error).
 
-  Go panics are explicit: `delHash` returns `none` for `pool.txs[index] = nil`
-  with an out-of-range index, `getTxs` returns `Out.panic` for a negative
-  `size` (`make([]*Transaction, 0, size)` runs before the `size <= 0` test).
+  Go panics are explicit: `delHash` returns `none` for `pool.txs[index] = nil` with an out-of-range index.
 
-  `fixed = true` is the code as it is now: `delTx` as repaired by /repo commit 85d2f65 ("fix: delTx of a
-  box must clear the slots of its pooled sub-txs") — a sub-tx hash of a deleted box also clears the slot
-  it is indexed at.  `fixed = false` is the code BEFORE that commit (the sub-tx loop only deleted index
-  entries); it is kept for the refutation theorems and the `_partial` theorems of LemoProofs/C18.lean.
+  `fixed = true` is the code as it is now, i.e. after the two /repo commits
+    85d2f65 "fix: delTx of a box must clear the slots of its pooled sub-txs"
+            (a sub-tx hash of a deleted box also clears the slot it is indexed at), and
+    6d2038c "fix: GetTxs checks size before allocating the result"
+            (`size <= 0` returns an empty list; the reserved capacity is `min(size, len(pool.txs))`, which is
+            not observable and not modelled).
+  `fixed = false` is the code BEFORE both commits: the sub-tx loop of `delTx` only deleted index entries, and
+  `GetTxs` ran `make([]*Transaction, 0, size)` first, which panics for `size < 0` (modelled: `Out.panic`) and
+  for `size` above ~2^45 / exhausts memory below that (NOT modelled: the legacy variant is only meaningful for
+  `size < 2^31`).  It is kept for the refutation and `_partial` theorems of LemoProofs/C18.lean.
+
+  `time` is Go's `uint32` widened to `uint64` before the comparison; the model's `Nat` contains it.
 -/
 namespace LemoModel.Pool
 
@@ -174,7 +180,7 @@ inductive Op where
   deriving DecidableEq, Repr
 
 def getTxs (fixed : Bool) (p : Pool) (time : Nat) (size : Int) : Pool × Out :=
-  if size < 0 then (p, .panic)
+  if size < 0 then (if fixed then (p, .txs []) else (p, .panic))
   else if size = 0 then (p, .txs [])
   else
     match getLoop fixed time size.toNat (List.range p.txs.length) p [] with
